@@ -391,9 +391,11 @@ func lexGround(l *lexer) stateFn {
 			}
 			return lexGround
 		case '*':
-			// Start of a /* comment
+			// Start of a /* comment.  Step over the * first so
+			// that it cannot double as the * of the closing */.
+			l.next()
 			if !l.skipTo("*/") {
-				l.ErrorfAt(l.line, l.col-1, `missing closing */`)
+				l.ErrorfAt(l.line, l.col-2, `missing closing */`)
 				return nil
 			}
 			// Now actually skip the */
